@@ -156,6 +156,9 @@ func init() {
 			r := c.R.Fork()
 			kind := uint64(r.Intn(2))
 			o := genWOpts(r)
+			if i%4 == 3 {
+				o.maxS = uint64(pick(r, []int{64, 256, 1 << 10})) // blocks above MaxAllowedSectionSize are put and resumed over
+			}
 			alpha := genBlocks(r, 2+r.Intn(5), genOpts{identity: true, maxData: 0}) // sizes up to the 2^14 varint boundary; 2^21 is C01/C05 territory (the extracted model is too slow on MiB-sized lists)
 			roots := genRoots(r, alpha, true)
 			var all []Blk
@@ -196,6 +199,10 @@ func init() {
 				panic("header length")
 			}
 			puts := genBlocks(r, 2, genOpts{identity: false, maxData: 40})
+			// a block ABOVE the small MaxAllowedSectionSize between them: Put does not check that limit
+			// (it only bounds what readers take out of a CAR), so the session must stay resumable
+			ld := r.Bytes(2048)
+			puts = []Blk{puts[0], {mkCid(1, 0x55, mh.SHA2_256, -1, ld), ld}, puts[1]}
 			smallS := defaultWOpts
 			smallS.maxS = 1 << 10
 			smallSpad := smallS
@@ -226,6 +233,25 @@ func init() {
 						segs, last := c12BuildSegs(puts, cuts)
 						c12EmitSegs(c, kind, l.o, roots, segs, last, plain, l.what)
 					}
+				}
+			}
+			// WHICH refusal a header above the caller's limit meets (C12_oversized_header_refused):
+			// the session's own limit one byte short, and a file written under the default limit
+			// reopened with a short one; CARv2 -> "error reading car header" (the first header read is
+			// the 11-byte pragma), CARv1 -> the ReadVersion call of ResumableVersion; class hdr2big
+			shortV1 := shortH
+			shortV1.v1 = true
+			defV1 := defaultWOpts
+			defV1.v1 = true
+			tiny := defaultWOpts
+			tiny.maxH = 10 // the pragma still fits, nothing else
+			for _, kind := range []uint64{0, 1} {
+				for _, cut := range []string{"discard", "finalize"} {
+					c12EmitMismatch(c, kind, shortH, roots, puts, cut, shortH, roots, "limits:refusal-own-limit")
+					c12EmitMismatch(c, kind, shortV1, roots, puts, cut, shortV1, roots, "limits:refusal-own-limit-v1")
+					c12EmitMismatch(c, kind, defaultWOpts, roots, puts, cut, shortH, roots, "limits:refusal-shorter-limit")
+					c12EmitMismatch(c, kind, defV1, roots, puts, cut, shortV1, roots, "limits:refusal-shorter-limit-v1")
+					c12EmitMismatch(c, kind, defaultWOpts, roots, puts, cut, tiny, roots, "limits:refusal-tiny-limit")
 				}
 			}
 		}
